@@ -697,6 +697,11 @@ public:
     void realTime_ResetState();
 
     /**
+     * @brief Begin of the song: the state a just loaded song starts with (playback comes here again after a seek, rewind or loop)
+     */
+    void realTime_SongBegin();
+
+    /**
      * @brief Note On event
      * @param channel MIDI channel
      * @param note Note key (from 0 to 127)
